@@ -19,6 +19,7 @@ Theorem C11_source_literals :
   mj_num_splits_offset = 1 /\ mj_scheme_stops_on_rem0_iter0 = true /\
   mj_scan_test_is_gt = true /\ mj_skip_test_is_gt = true /\ mj_refine_test_is_lt = true /\
   mj_refine_uses_default_ulps = true /\ mj_refine_bounded_by_len = true /\
+  mj_scan_exhaustion_puts_cut_at_end = true /\
   approx_version = (0, 5, 1).   (* f64_ulps_eq is transcribed from this version of the approx crate *)
 Proof. repeat split; exact eq_refl. Qed.
 
